@@ -102,6 +102,39 @@ def rand_prog(rng, depth):
     return Prog(rng.random() < 0.5, ops)
 
 
+# ---- members of a chain built by the doc-hidden and_or_where(LogicalChainOper::And(e)): boolean trees over atoms ----
+def rand_tree(rng, depth):
+    if depth <= 0 or rng.random() < 0.35:
+        return rng.choice(ATOMS)
+    k = rng.random()
+    if k < 0.2:
+        return ("not", rand_tree(rng, depth - 1))
+    return (rng.choice(["and", "or"]), rand_tree(rng, depth - 1), rand_tree(rng, depth - 1))
+
+
+def tree_sexp(t):
+    if isinstance(t, str):
+        return "(col %s)" % hexs(t)
+    if t[0] == "not":
+        return "(not %s)" % tree_sexp(t[1])
+    return "(bin %s %s %s)" % (t[0], tree_sexp(t[1]), tree_sexp(t[2]))
+
+
+def tree_sem(t, rho):
+    if isinstance(t, str):
+        return rho[t]
+    if t[0] == "not":
+        return not3(tree_sem(t[1], rho))
+    a, b = tree_sem(t[1], rho), tree_sem(t[2], rho)
+    return and3(a, b) if t[0] == "and" else or3(a, b)
+
+
+def tree_atoms(t):
+    if isinstance(t, str):
+        return {t}
+    return set().union(*[tree_atoms(x) for x in t[1:]])
+
+
 # ---- statement contexts: where the predicate is placed ----
 CONTEXTS = ["where", "having", "joinon", "update", "delete", "case"]
 
@@ -113,6 +146,8 @@ def wrap_context(ctx_name, items):
         for k, x in items:
             if k == "cond":
                 out.append("(%s %s)" % (kw_cond, x.sexp()))
+            elif k == "chain":
+                out.append("(andorwhere and %s)" % tree_sexp(x))
             else:
                 out.append("(%s (col %s))" % (kw_and, hexs(x)))
         return " ".join(out)
@@ -135,7 +170,7 @@ def wrap_context(ctx_name, items):
 
 def spec_value(ctx_name, items, rho):
     def one(k, x):
-        return x.sem(rho) if k == "cond" else rho[x]
+        return x.sem(rho) if k == "cond" else (tree_sem(x, rho) if k == "chain" else rho[x])
     if ctx_name in ("joinon", "case"):
         return one(*items[0])
     v = T
@@ -170,7 +205,13 @@ def gen_cases(ctx):
         for _ in range(k):
             items.append(("cond", rand_prog(rng, rng.choice([1, 2, 3]))) if rng.random() < 0.7 else ("and", rng.choice(ATOMS)))
         add(cx, items)
-    ctx.cov["distribution"] = {"enumerated_programs": len(progs), "random_histories": n, "contexts": CONTEXTS}
+    # histories of and_or_where(And(..)) calls (never mixed with the other calls: the code panics on a mix)
+    nchain = 400 if ctx.quick else 6000
+    for _ in range(nchain):
+        cx = rng.choice(["where", "update", "delete"])
+        add(cx, [("chain", rand_tree(rng, rng.choice([0, 1, 2, 2]))) for _ in range(rng.randrange(1, 4))])
+    ctx.cov["distribution"] = {"enumerated_programs": len(progs), "random_histories": n, "and_or_where_histories": nchain,
+                               "contexts": CONTEXTS}
     return lines
 
 
@@ -247,7 +288,8 @@ def batch_oracle(ctx, lines, impl):
         if pred is None:
             verdicts[i] = "conditions were given but no predicate is rendered"
             continue
-        atoms = sorted(set().union(*[(x.atoms() if k == "cond" else {x}) for k, x in items]))
+        atoms = sorted(set().union(*[(x.atoms() if k == "cond" else (tree_atoms(x) if k == "chain" else {x}))
+                                     for k, x in items]))
         evaluated += 1
         for vals in itertools.product((T, F, U), repeat=len(atoms)):
             rho = dict(zip(atoms, vals))
